@@ -21,9 +21,10 @@ GENS = {
     'ep': ['rand', 'rand', 'proj', 'gen', 'inf'], 'g1': ['rand', 'proj', 'gen', 'inf'],
     'ep2': ['rand', 'rand', 'proj', 'gen', 'inf'], 'g2': ['rand', 'proj', 'gen', 'inf'],
     'eb': ['rand', 'rand', 'proj', 'gen', 'inf'],
+    'ed': ['rand', 'rand', 'proj', 'gen', 'inf'],
     'gt': ['rand', 'rand', 'one', 'gen'],
 }
-PACKABLE = {'fp2', 'fp8', 'fp12', 'ep', 'g1', 'ep2', 'g2', 'eb', 'gt'}
+PACKABLE = {'fp2', 'fp8', 'fp12', 'ep', 'g1', 'ep2', 'g2', 'eb', 'gt', 'ed'}
 ALPHA = '0123456789ABCDEFGHIJKLMNOPQRSTUVWXYZabcdefghijklmnopqrstuvwxyz+/'
 
 
@@ -33,7 +34,7 @@ def gen_plan(rng, tier, config, opts):
     curve = rng.choice(CURVES.get(config, CURVES['A']))
     lines.append('CURVE ' + curve)
     pc = curve in ('BN_P256', 'B12_P381')
-    types = TYPES_ALL + (TYPES_PC * 2 if pc else [])
+    types = TYPES_ALL + (TYPES_PC * 2 if pc else []) + (['ed'] * 8 if curve == 'CURVE_25519' else [])
     faulty = not rng.chance(0.2)          # a fifth of the runs are fault free
     nops = rng.choice([4, 8, 12, 20, 30])
     slot_types = {}
@@ -276,6 +277,40 @@ def _validate(typ, data, P):
                 return 'coord>=p'
             return None if (y * y - (x * x * x + a * x + b)) % p == 0 else 'off-curve'
         return 'length'
+    if typ == 'ed':
+        # twisted Edwards: a x^2 + y^2 = 1 + d x^2 y^2; encodings 00 | 02/03 y (parity of x) | 04 y x
+        a, dd = P['eda'], P['edd']
+        if n == 1:
+            return None if data[0] == 0 else 'tag'
+        if n == F + 1:
+            if data[0] not in (2, 3):
+                return 'tag'
+            y = coords(1, 1)[0]
+            if y >= p:
+                return 'coord>=p'
+            den = (a - dd * y * y) % p
+            if den == 0:
+                return 'off-curve'
+            x2 = (1 - y * y) * pow(den, p - 2, p) % p
+            if x2 != 0 and pow(x2, (p - 1) // 2, p) != 1:
+                return 'off-curve'
+            if x2 == 0 and data[0] == 3:
+                return 'sign-of-zero'
+            if x2 == 0 and y == 1:
+                return 'identity-in-long-form'
+            return None
+        if n == 2 * F + 1:
+            if data[0] != 4:
+                return 'tag'
+            y, x = coords(1, 2)
+            if x >= p or y >= p:
+                return 'coord>=p'
+            if (a * x * x + y * y - 1 - dd * x * x * y * y) % p != 0:
+                return 'off-curve'
+            if x == 0 and y == 1:
+                return 'identity-in-long-form'
+            return None
+        return 'length'
     if typ in ('ep2', 'g2'):
         f2 = Fp2(p, P['qnr'])
         a2 = (P['a20'], P['a21'])
@@ -378,6 +413,10 @@ def check(plan, transcript, config, opts):
             d = kv(f)
             for k, v in d.items():
                 P[k] = int(v, 16) if k not in ('fpbytes', 'qnr', 'cnr') else int(v)
+        elif tag == 'PARAME':
+            d = kv(f)
+            P['eda'] = int(d['a'], 16)
+            P['edd'] = int(d['d'], 16)
         elif tag == 'PARAMB':
             d = kv(f)
             P['m'] = int(d['m'])
